@@ -1196,6 +1196,80 @@ Section CGProofs.
     - apply cg_loop_energy; auto.
   Qed.
 
+  (* ... and it strictly decreases at every iteration that starts from a non-zero residual *)
+  Lemma cg_step_strict x r p :
+    is_residual b x r -> ip p r = ip r r -> 0 < ip r r ->
+    energy (fun q => x q + ip r r / ip (A p) p * p q) < energy x.
+  Proof.
+    intros Hres Hpr Hpos. set (rho := ip r r) in *. set (ka := ip (A p) p).
+    assert (Hpr' : ip p b - ip p (A x) = rho).
+    { rewrite <- Hpr. rewrite (ip_ext p p r (fun q => b q + (-1) * A x q)); auto.
+      - rewrite ip_add_r. ring.
+      - intros q Hq. rewrite (Hres q Hq). ring. }
+    assert (Hka : ka <= 0) by (unfold ka; rewrite ip_comm; apply A_nsd).
+    destruct (Req_dec ka 0) as [K0|K0].
+    - exfalso. assert (Ap0 : forall q, In q pts -> A p q = 0) by (apply nsd_zero; exact K0).
+      assert (R0 : rho = 0).
+      { rewrite <- Hpr'. rewrite (b_orth p Ap0). rewrite A_sym. rewrite (ip_zero_l (A p) x Ap0). ring. }
+      lra.
+    - assert (Kn : ka < 0) by lra.
+      rewrite energy_step, Hpr'. rewrite (ip_comm p (A p)). fold ka.
+      assert (E : rho / ka * rho - / 2 * (rho / ka * (rho / ka)) * ka = / 2 * (rho * rho) * / ka) by (field; exact K0).
+      assert (N : / 2 * (rho * rho) * / ka < 0).
+      { assert (/ ka < 0) by (apply Rinv_lt_0_compat; exact Kn).
+        assert (0 < / 2 * (rho * rho)) by (apply Rmult_lt_0_compat; [lra | apply Rmult_lt_0_compat; lra]).
+        rewrite <- (Rmult_0_r (/ 2 * (rho * rho))). apply Rmult_lt_compat_l; lra. }
+      lra.
+  Qed.
+
+  Lemma cg_loop_energy_strict bnrm tol fuel x r p bkden err :
+    is_residual b x r -> 0 < ip r r ->
+    energy (out_x (cg_loop Rops P peqb pts A (S fuel) bnrm tol 0%Z x r p bkden err)) < energy x.
+  Proof.
+    intros Hres Hpos. cbn [cg_loop]. change (0 + 1 =? 1)%Z with true. cbv iota.
+    set (bknum := vdot Rops P pts r r).
+    set (p' := tabR r).
+    set (z := tabR (A p')).
+    set (ak := ndiv Rops bknum (vdot Rops P pts z p')).
+    set (x' := tabR (fun q => nadd Rops (x q) (nmul Rops ak (p' q)))).
+    set (r' := tabR (fun q => nsub Rops (r q) (nmul Rops ak (z q)))).
+    set (err' := ndiv Rops (l2norm Rops P pts r') bnrm).
+    assert (Hpr : ip p' r = ip r r) by (apply ip_ext; [intros q Hq; apply tab_spec; auto | auto]).
+    assert (Hak : ak = ip r r / ip (A p') p').
+    { unfold ak, bknum. cbn [ndiv Rops]. rewrite !vdot_eq. f_equal.
+      apply ip_ext; [intros q Hq; unfold z; apply tab_spec; auto | auto]. }
+    pose proof (cg_step_strict x r p' Hres Hpr Hpos) as S1. rewrite <- Hak in S1.
+    destruct (cg_step_facts x r p' Hres Hpr) as [_ S2]. cbv zeta in S2. rewrite <- Hak in S2.
+    assert (Hres' : is_residual b x' r').
+    { intros q Hq. unfold r', x', z. rewrite !tab_spec by auto. cbn [nsub nadd nmul Rops].
+      rewrite (A_ext (tabR (fun q0 => x q0 + ak * p' q0)) (fun q0 => x q0 + ak * p' q0) q Hq)
+        by (intros q0 Hq0; apply tab_spec; auto).
+      rewrite A_linear, (Hres q Hq). ring. }
+    assert (Ex' : energy x' = energy (fun q => x q + ak * p' q)).
+    { apply energy_ext. intros q Hq. unfold x'. rewrite tab_spec by auto. reflexivity. }
+    assert (Hinv' : (0 + 1 = 0)%Z \/ ip r' p' = 0).
+    { right. rewrite <- S2. apply ip_ext; [|auto]. intros q Hq. unfold r', z. rewrite !tab_spec by auto.
+      cbn [nsub nmul Rops]. reflexivity. }
+    destruct (nleb Rops err' tol).
+    - unfold out_x. cbn [fst]. lra.
+    - pose proof (cg_loop_energy bnrm tol fuel (0 + 1)%Z x' r' p' bknum err' Hres' Hinv'). lra.
+  Qed.
+
+  Lemma cg_solve_energy_strict itmax tol x0 err0 :
+    cg_eps Rops <= norm b -> (exists q, In q pts /\ b q - A x0 q <> 0) ->
+    energy (out_x (cg_solve Rops P peqb pts A (S itmax) tol b x0 err0)) < energy x0.
+  Proof.
+    intros Hb [q0 [Hq0 Hne]]. unfold cg_solve.
+    set (r0 := tabR (fun q => nsub Rops (b q) (A x0 q))).
+    assert (Hres : is_residual b x0 r0) by (intros q Hq; unfold r0; rewrite tab_spec by auto; reflexivity).
+    assert (El : nltb Rops (l2norm Rops P pts b) (cg_eps Rops) = false) by (cbn [nltb Rops]; apply Rltb_false; exact Hb).
+    rewrite El. apply cg_loop_energy_strict; auto.
+    assert (N : 0 <= ip r0 r0) by (apply lsumR_nonneg; intros; apply sq_nonneg).
+    destruct (Req_dec (ip r0 r0) 0) as [E|E]; [|lra]. exfalso. apply Hne.
+    rewrite <- (Hres q0 Hq0). apply sq_zero.
+    apply (lsumR_zero_terms (fun q => r0 q * r0 q) pts); auto. intros; apply sq_nonneg.
+  Qed.
+
   (* in terms of the error: for any solution xs of A xs = b, the (-A)-norm of x - xs does not increase *)
   Definition err_norm2 (xs x : P -> R) : R := - ip (fun q => x q + (-1) * xs q) (A (fun q => x q + (-1) * xs q)).
 
@@ -1213,6 +1287,13 @@ Section CGProofs.
     err_norm2 xs (out_x (cg_solve Rops P peqb pts A itmax tol b x0 err0)) <= err_norm2 xs x0.
   Proof.
     intros Hs. rewrite !(energy_error xs) by auto. pose proof (cg_solve_energy itmax tol x0 err0). lra.
+  Qed.
+
+  Lemma cg_solve_error_strict itmax tol x0 err0 xs : (forall q, In q pts -> A xs q = b q) ->
+    cg_eps Rops <= norm b -> (exists q, In q pts /\ b q - A x0 q <> 0) ->
+    err_norm2 xs (out_x (cg_solve Rops P peqb pts A (S itmax) tol b x0 err0)) < err_norm2 xs x0.
+  Proof.
+    intros Hs Hb Hne. rewrite !(energy_error xs) by auto. pose proof (cg_solve_energy_strict itmax tol x0 err0 Hb Hne). lra.
   Qed.
 End CGProofs.
 
@@ -1292,6 +1373,24 @@ Section Poisson2.
              (dv2 st) (b_orth2 st Hc)).
     intros q Hq. rewrite (Hc q) by (apply (in_all_ix2 sh); auto). apply Hs. apply (in_all_ix2 sh); auto.
   Qed.
+
+  Lemma cg_error_strict2 st itmax tol x0 err0 xs :
+    consistent2 Rops sc sm sh st -> shape_ok2 sh = true ->
+    (forall q, in_pmf2 sh q -> A xs q = div_value2 Rops sc sm sh st q) ->
+    cg_eps Rops <= nrm (div_value2 Rops sc sm sh st) ->
+    (exists q, in_pmf2 sh q /\ div_value2 Rops sc sm sh st q - A x0 q <> 0) ->
+    err_norm2 _ pts A xs (out_x _ (integrate2 Rops sh (S itmax) tol (dv2 st) x0 err0)) < err_norm2 _ pts A xs x0.
+  Proof.
+    intros Hc Hok Hs Hb [q [Hq Hne]]. unfold integrate2. rewrite Hok.
+    assert (Hd : forall q, In q pts -> dv2 st q = div_value2 Rops sc sm sh st q)
+      by (intros q' Hq'; apply Hc; apply (in_all_ix2 sh); auto).
+    apply (cg_solve_error_strict _ _ ix2_eqb_eq pts A (atimes2_linear sh) A2_ext
+             (laplacian_symmetric2 sh Hnx Hny) (fun x => laplacian_negative_semidefinite2 sh Hnx Hny Hwx Hwy x)
+             (dv2 st) (b_orth2 st Hc)).
+    - intros q' Hq'. rewrite Hd by auto. apply Hs. apply (in_all_ix2 sh); auto.
+    - rewrite (norm_ext _ pts (dv2 st) (div_value2 Rops sc sm sh st) Hd). exact Hb.
+    - exists q. split; [apply (in_all_ix2 sh); auto|]. rewrite Hd by (apply (in_all_ix2 sh); auto). exact Hne.
+  Qed.
 End Poisson2.
 
 Section Poisson3.
@@ -1366,6 +1465,24 @@ Section Poisson3.
              (laplacian_symmetric3 sh Hnx Hny Hnz) (fun x => laplacian_negative_semidefinite3 sh Hnx Hny Hnz Hwx Hwy Hwz x)
              (dv3 st) (b_orth3 st Hc)).
     intros q Hq. rewrite (Hc q) by (apply (in_all_ix3 sh); auto). apply Hs. apply (in_all_ix3 sh); auto.
+  Qed.
+
+  Lemma cg_error_strict3 st itmax tol x0 err0 xs :
+    consistent3 Rops sc sm sh st -> shape_ok3 sh = true ->
+    (forall q, in_pmf3 sh q -> A xs q = div_value3 Rops sc sm sh st q) ->
+    cg_eps Rops <= nrm (div_value3 Rops sc sm sh st) ->
+    (exists q, in_pmf3 sh q /\ div_value3 Rops sc sm sh st q - A x0 q <> 0) ->
+    err_norm2 _ pts A xs (out_x _ (integrate3 Rops sh (S itmax) tol (dv3 st) x0 err0)) < err_norm2 _ pts A xs x0.
+  Proof.
+    intros Hc Hok Hs Hb [q [Hq Hne]]. unfold integrate3. rewrite Hok.
+    assert (Hd : forall q, In q pts -> dv3 st q = div_value3 Rops sc sm sh st q)
+      by (intros q' Hq'; apply Hc; apply (in_all_ix3 sh); auto).
+    apply (cg_solve_error_strict _ _ ix3_eqb_eq pts A (atimes3_linear sh) A3_ext
+             (laplacian_symmetric3 sh Hnx Hny Hnz) (fun x => laplacian_negative_semidefinite3 sh Hnx Hny Hnz Hwx Hwy Hwz x)
+             (dv3 st) (b_orth3 st Hc)).
+    - intros q' Hq'. rewrite Hd by auto. apply Hs. apply (in_all_ix3 sh); auto.
+    - rewrite (norm_ext _ pts (dv3 st) (div_value3 Rops sc sm sh st) Hd). exact Hb.
+    - exists q. split; [apply (in_all_ix3 sh); auto|]. rewrite Hd by (apply (in_all_ix3 sh); auto). exact Hne.
   Qed.
 End Poisson3.
 
@@ -1511,3 +1628,139 @@ Qed.
 (* a solution exists in the witness case: A (-b22) = b22 *)
 Lemma b22_solution q : In q (all_ix2 sh22) -> atimes2 Rops sh22 (fun p => 0 + -1 * b22 p) q = b22 q.
 Proof. intros Hq. rewrite atimes2_linear, laplacian_kernel2, (b22_eigen q Hq). ring. Qed.
+
+Lemma cg_error_strict2_history sc sm (sh : shape2 (T:=R)) st0 pre h itmax tol x0 err0 xs :
+  (0 < nxg sh)%Z -> (0 < nyg sh)%Z -> wx sh <> 0 -> wy sh <> 0 -> Forall (fun e => in_grad2 sh (fst e)) h ->
+  let st := run2 Rops sc sm sh (set_div2 Rops sc sm sh (preload2 Rops st0 pre)) h in
+  let D := div_value2 Rops sc sm sh st in
+  shape_ok2 sh = true ->
+  (forall q, in_pmf2 sh q -> atimes2 Rops sh xs q = D q) ->
+  cg_eps Rops <= l2norm Rops _ (all_ix2 sh) D ->
+  (exists q, in_pmf2 sh q /\ D q - atimes2 Rops sh x0 q <> 0) ->
+  err_norm2 _ (all_ix2 sh) (atimes2 Rops sh) xs (out_x _ (integrate2 Rops sh (S itmax) tol (dv2 st) x0 err0))
+  < err_norm2 _ (all_ix2 sh) (atimes2 Rops sh) xs x0.
+Proof.
+  intros Hx Hy Wx Wy Hh st D Hok Hs Hb Hne. apply (cg_error_strict2 sc sm sh Hx Hy Wx Wy); auto.
+  apply run2_consistent; auto. apply set_div2_consistent; auto.
+Qed.
+
+Lemma cg_error_strict3_history sc sm (sh : shape3 (T:=R)) st0 pre h itmax tol x0 err0 xs :
+  (0 < mxg sh)%Z -> (0 < myg sh)%Z -> (0 < mzg sh)%Z -> vx sh <> 0 -> vy sh <> 0 -> vz sh <> 0 ->
+  Forall (fun e => in_grad3 sh (fst e)) h ->
+  let st := run3 Rops sc sm sh (set_div3 Rops sc sm sh (preload3 Rops st0 pre)) h in
+  let D := div_value3 Rops sc sm sh st in
+  shape_ok3 sh = true ->
+  (forall q, in_pmf3 sh q -> atimes3 Rops sh xs q = D q) ->
+  cg_eps Rops <= l2norm Rops _ (all_ix3 sh) D ->
+  (exists q, in_pmf3 sh q /\ D q - atimes3 Rops sh x0 q <> 0) ->
+  err_norm2 _ (all_ix3 sh) (atimes3 Rops sh) xs (out_x _ (integrate3 Rops sh (S itmax) tol (dv3 st) x0 err0))
+  < err_norm2 _ (all_ix3 sh) (atimes3 Rops sh) xs x0.
+Proof.
+  intros Hx Hy Hz Wx Wy Wz Hh st D Hok Hs Hb Hne. apply (cg_error_strict3 sc sm sh Hx Hy Hz Wx Wy Wz); auto.
+  apply run3_consistent; auto. apply set_div3_consistent; auto.
+Qed.
+
+(* ================================================================== consistency: the scheme is exact on cubics
+   Gradient data equal to the gradient of a polynomial U of total degree <= 3 at the bin centres: at every interior
+   PMF node the divergence stored by set_div / update_div_neighbors equals the discrete Laplacian (atimes) of the
+   samples of U at the nodes, EXACTLY.  (This is the algebraic content of second-order consistency: for a C^4 surface
+   the local truncation error is the Taylor remainder of degree 4, O(w^2).) *)
+Section Consistency2.
+  Variable sc : smooth_cfg.
+  Variable sm : bool.
+  Variable sh : shape2 (T:=R).
+  Variable st : state2 (T:=R).
+  Variables x0 y0 : R.
+  Variables c00 c10 c01 c20 c11 c02 c30 c21 c12 c03 : R.
+  Notation Nx := (npmf (px sh) (nxg sh)).
+  Notation Ny := (npmf (py sh) (nyg sh)).
+
+  Definition cubU (x y : R) : R :=
+    c00 + c10 * x + c01 * y + c20 * x * x + c11 * x * y + c02 * y * y
+    + c30 * x * x * x + c21 * x * x * y + c12 * x * y * y + c03 * y * y * y.
+  Definition cubUx (x y : R) : R := c10 + 2 * c20 * x + c11 * y + 3 * c30 * x * x + 2 * c21 * x * y + c12 * y * y.
+  Definition cubUy (x y : R) : R := c01 + c11 * x + 2 * c02 * y + c21 * x * x + 2 * c12 * x * y + 3 * c03 * y * y.
+  (* PMF node i sits at x0 + i w; gradient bin a lies between nodes a and a+1, its centre at x0 + (a + 1/2) w *)
+  Definition nodx (i : Z) : R := x0 + IZR i * wx sh.
+  Definition nody (j : Z) : R := y0 + IZR j * wy sh.
+  Definition cenx (a : Z) : R := x0 + (IZR a + / 2) * wx sh.
+  Definition ceny (b : Z) : R := y0 + (IZR b + / 2) * wy sh.
+
+  Lemma scheme_exact_on_cubics2 i j :
+    (1 <= i <= Nx - 2)%Z -> (1 <= j <= Ny - 2)%Z -> wx sh <> 0 -> wy sh <> 0 ->
+    (forall a b, (a = i - 1 \/ a = i)%Z -> (b = j - 1 \/ b = j)%Z ->
+       gval2 Rops sc sm sh st (a, b) = (cubUx (cenx a) (ceny b), cubUy (cenx a) (ceny b))) ->
+    div_value2 Rops sc sm sh st (i, j) = atimes2 Rops sh (fun p => cubU (nodx (fst p)) (nody (snd p))) (i, j).
+  Proof.
+    intros Hi Hj Wx Wy Hg. rewrite atimes2_eq. unfold div_value2, div_formula2. cbn [fst snd].
+    rewrite !Hg by (auto; lia).
+    assert (Ex : efact Rops (px sh) Nx i = 1).
+    { unfold efact. set (N := npmf (px sh) (nxg sh)) in *. destruct (px sh); [reflexivity|].
+      destruct (Z.eqb_spec i 0); [lia|]. destruct (Z.eqb_spec i (N - 1)); [lia|]. reflexivity. }
+    assert (Ey : efact Rops (py sh) Ny j = 1).
+    { unfold efact. set (N := npmf (py sh) (nyg sh)) in *. destruct (py sh); [reflexivity|].
+      destruct (Z.eqb_spec j 0); [lia|]. destruct (Z.eqb_spec j (N - 1)); [lia|]. reflexivity. }
+    assert (Lx : forall a : Z -> R, lap1 Rops (px sh) Nx a i = a (i - 1)%Z + a (i + 1)%Z - 2 * a i).
+    { intros a. unfold lap1. set (N := npmf (px sh) (nxg sh)) in *. destruct (px sh).
+      - fold (wr N (i - 1)) (wr N (i + 1)). rewrite !wr_small by lia. reflexivity.
+      - destruct (Z.eqb_spec i 0); [lia|]. destruct (Z.eqb_spec i (N - 1)); [lia|]. reflexivity. }
+    assert (Ly : forall a : Z -> R, lap1 Rops (py sh) Ny a j = a (j - 1)%Z + a (j + 1)%Z - 2 * a j).
+    { intros a. unfold lap1. set (N := npmf (py sh) (nyg sh)) in *. destruct (py sh).
+      - fold (wr N (j - 1)) (wr N (j + 1)). rewrite !wr_small by lia. reflexivity.
+      - destruct (Z.eqb_spec j 0); [lia|]. destruct (Z.eqb_spec j (N - 1)); [lia|]. reflexivity. }
+    rewrite Ex, Ey, Lx, Ly. cbn [fst snd nadd nsub nmul ndiv n1 nofZ Rops]. unfold nhalf. cbn [ndiv n1 nofZ Rops].
+    unfold cubU, cubUx, cubUy, nodx, nody, cenx, ceny. rewrite !minus_IZR, !plus_IZR. field. split; assumption.
+  Qed.
+End Consistency2.
+
+Section Consistency3.
+  Variable sc : smooth_cfg.
+  Variable sm : bool.
+  Variable sh : shape3 (T:=R).
+  Variable st : state3 (T:=R).
+  Variables x0 y0 z0 : R.
+  Variables k000 k001 k002 k003 k010 k011 k012 k020 k021 k030 k100 k101 k102 k110 k111 k120 k200 k201 k210 k300 : R.
+  Notation Nx := (npmf (qx sh) (mxg sh)).
+  Notation Ny := (npmf (qy sh) (myg sh)).
+  Notation Nz := (npmf (qz sh) (mzg sh)).
+
+  Definition cub3 (x y z : R) : R := k000 + k001 * z + k002 * z * z + k003 * z * z * z + k010 * y + k011 * y * z + k012 * y * z * z + k020 * y * y + k021 * y * y * z + k030 * y * y * y + k100 * x + k101 * x * z + k102 * x * z * z + k110 * x * y + k111 * x * y * z + k120 * x * y * y + k200 * x * x + k201 * x * x * z + k210 * x * x * y + k300 * x * x * x.
+  Definition cub3x (x y z : R) : R := k100 + k101 * z + k102 * z * z + k110 * y + k111 * y * z + k120 * y * y + 2 * k200 * x + 2 * k201 * x * z + 2 * k210 * x * y + 3 * k300 * x * x.
+  Definition cub3y (x y z : R) : R := k010 + k011 * z + k012 * z * z + 2 * k020 * y + 2 * k021 * y * z + 3 * k030 * y * y + k110 * x + k111 * x * z + 2 * k120 * x * y + k210 * x * x.
+  Definition cub3z (x y z : R) : R := k001 + 2 * k002 * z + 3 * k003 * z * z + k011 * y + 2 * k012 * y * z + k021 * y * y + k101 * x + 2 * k102 * x * z + k111 * x * y + k201 * x * x.
+  Definition nod3x (i : Z) : R := x0 + IZR i * vx sh.
+  Definition nod3y (j : Z) : R := y0 + IZR j * vy sh.
+  Definition nod3z (k : Z) : R := z0 + IZR k * vz sh.
+  Definition cen3x (a : Z) : R := x0 + (IZR a + / 2) * vx sh.
+  Definition cen3y (b : Z) : R := y0 + (IZR b + / 2) * vy sh.
+  Definition cen3z (c : Z) : R := z0 + (IZR c + / 2) * vz sh.
+
+  Lemma interior_efact per n i : (1 <= i <= n - 2)%Z -> efact Rops per n i = 1.
+  Proof.
+    intros Hi. unfold efact. destruct per; [reflexivity|].
+    destruct (Z.eqb_spec i 0); [lia|]. destruct (Z.eqb_spec i (n - 1)); [lia|]. reflexivity.
+  Qed.
+  Lemma interior_lap1 per n (a : Z -> R) i : (1 <= i <= n - 2)%Z ->
+    lap1 Rops per n a i = a (i - 1)%Z + a (i + 1)%Z - 2 * a i.
+  Proof.
+    intros Hi. unfold lap1. destruct per.
+    - fold (wr n (i - 1)) (wr n (i + 1)). rewrite !wr_small by lia. reflexivity.
+    - destruct (Z.eqb_spec i 0); [lia|]. destruct (Z.eqb_spec i (n - 1)); [lia|]. reflexivity.
+  Qed.
+
+  Lemma scheme_exact_on_cubics3 i j k :
+    (1 <= i <= Nx - 2)%Z -> (1 <= j <= Ny - 2)%Z -> (1 <= k <= Nz - 2)%Z -> vx sh <> 0 -> vy sh <> 0 -> vz sh <> 0 ->
+    (forall a b c, (a = i - 1 \/ a = i)%Z -> (b = j - 1 \/ b = j)%Z -> (c = k - 1 \/ c = k)%Z ->
+       gval3 Rops sc sm sh st (a, b, c) =
+       (cub3x (cen3x a) (cen3y b) (cen3z c), cub3y (cen3x a) (cen3y b) (cen3z c), cub3z (cen3x a) (cen3y b) (cen3z c))) ->
+    div_value3 Rops sc sm sh st (i, j, k) =
+    atimes3 Rops sh (fun p => cub3 (nod3x (fst (fst p))) (nod3y (snd (fst p))) (nod3z (snd p))) (i, j, k).
+  Proof.
+    intros Hi Hj Hk Wx Wy Wz Hg. rewrite atimes3_eq. unfold div_value3, div_formula3, i3x, i3y, i3z. cbn [fst snd].
+    rewrite !Hg by (auto; lia).
+    rewrite !interior_efact, !interior_lap1 by assumption.
+    unfold t3x, t3y, t3z. cbn [fst snd nadd nsub nmul ndiv n1 nofZ Rops].
+    unfold cub3, cub3x, cub3y, cub3z, nod3x, nod3y, nod3z, cen3x, cen3y, cen3z. rewrite !minus_IZR, !plus_IZR. field.
+    repeat split; assumption.
+  Qed.
+End Consistency3.
